@@ -1,4 +1,9 @@
-use std::sync::{Arc, RwLock};
+use std::sync::Arc;
+#[cfg(not(qvnt_verif))]
+use std::sync::RwLock;
+
+#[cfg(qvnt_verif)]
+use crate::verif::RwLock;
 
 use lazy_static::*;
 use rayon::*;
@@ -38,6 +43,18 @@ where
 {
     // The lock is released before the job runs, so a job (or a task stolen by a worker
     // that waits for it) may itself call `global_install` with any thread count.
+    #[cfg(qvnt_verif)]
+    let call = crate::verif::CallGuard::enter(num_threads);
     let pool = get_current_pool(num_threads).unwrap_or_else(|| set_num_threads(num_threads));
+    #[cfg(qvnt_verif)]
+    let op = {
+        let id = call.id();
+        move || {
+            crate::verif::job_event(id, true);
+            let res = op();
+            crate::verif::job_event(id, false);
+            res
+        }
+    };
     pool.install(op)
 }
